@@ -454,6 +454,7 @@ let run ~seed ~tier oc =
   List.iter (fun (tpl, demanded) ->
     emit oc (Ob [ "stream", JS "known:tag-closer-inside-expression"; "tpl", JS (hex tpl); "demanded", JS (hex demanded);
                   "predicted", JS "parse-error" ])) known_tag_closer;
+  emit oc (Ob [ "stream", JS "history"; "seed", JI (seed * 7 + 1); "rounds", JI (if deep then 8 else 3) ]);
   List.iter (fun (e, listy) -> tree_case oc r "fixed" e ~listy) fixed_trees;
   List.iter (fun (src, e) -> case_with oc "table" e ~listy:false [ { style = "hand"; src; safe = true } ]) table_cases;
   let ntyped = if deep then 26000 else 2600 in
